@@ -136,6 +136,18 @@ let () =
          | ["BV"; _; n; rk; s; pktf; pk; m; ch; yo] ->
            verdict (bip_verify (zh n) (yodd_table yo) (chal_table ch)
                       { s_R = { g_tf = true; g_k = zh rk }; s_s = zh s } { g_tf = (pktf = "1"); g_k = zh pk } m)
+         | ["BB"; _; n; coefs; entries; ch; yo] ->
+           (* entries: rk:s:pk:mid,...  (pk torsion free) *)
+           let es = List.map (fun e -> match String.split_on_char ':' e with
+             | [rk; s; pk; m] -> { be_sig = { s_R = { g_tf = true; g_k = zh rk }; s_s = zh s }; be_pk = { g_tf = true; g_k = zh pk }; be_m = m }
+             | _ -> failwith "bad batch entry") (fields ',' entries) in
+           verdict (bip_batch_verify (zh n) (yodd_table yo) (chal_table ch) (List.map zh (fields ',' coefs)) es)
+         | ["GB"; _; n; neg; xr; xp; entries; ch] ->
+           let n = zh n in
+           let es = List.map (fun e -> match String.split_on_char ':' e with
+             | [rk; s; pk; m] -> { be_sig = { s_R = { g_tf = true; g_k = zh rk }; s_s = zh s }; be_pk = { g_tf = true; g_k = zh pk }; be_m = m }
+             | _ -> failwith "bad batch entry") (fields ',' entries) in
+           verdict (gen_batch_verify n (chal_table ch) (neg = "1") (enc_of xr n) (enc_of xp n) es)
          | ["BW"; _; n; p; px; rx; s; m; ch; yo; le] ->
            verdict (bip_verify_wire (zh n) (yodd_table yo) (chal_table ch) (zh p) (lift_even_table le) (zh px) (zh rx) (zh s) m)
          | ["MW"; _; n; p; rx; s; pk; m; ch; le] ->
